@@ -883,9 +883,6 @@ static std::string opRrtPlay(const Toks &t)
     std::shared_ptr<SysPropagator> prop;
     auto si = makeSI(sys, prop);
     si->setStateValidityChecker(std::make_shared<EnvValidity>(si, pb.env));
-    sys.space->setStateSamplerAllocator([&ds](const ob::StateSpace *sp) { return std::make_shared<ScriptStateSampler>(sp, &ds); });
-    sys.cspace->setControlSamplerAllocator(
-        [&ds](const oc::ControlSpace *cs) { return std::make_shared<ScriptControlSampler>(cs, &ds); });
     unsigned kk = k == 0 ? 1 : (unsigned)k;
     si->setDirectedControlSamplerAllocator(
         [kk](const oc::SpaceInformation *s) { return std::make_shared<oc::SimpleDirectedControlSampler>(s, kk); });
@@ -905,11 +902,18 @@ static std::string opRrtPlay(const Toks &t)
     planner->setIntermediateStates(inter != 0);
     planner->setProblemDefinition(pdef);
     planner->setup();
+    // installed only now: StateSpace::setup() of a RealVector space with more than two dimensions registers a random linear
+    // default projection whose setup draws 100 uniform samples from the space's sampler to infer cell sizes
+    sys.space->setStateSamplerAllocator([&ds](const ob::StateSpace *sp) { return std::make_shared<ScriptStateSampler>(sp, &ds); });
+    sys.cspace->setControlSamplerAllocator(
+        [&ds](const oc::ControlSpace *cs) { return std::make_shared<ScriptControlSampler>(cs, &ds); });
     auto cnt = std::make_shared<vp::EvalCounter>();
     cnt->fireAt = ds.samples.size();
     ob::PlannerStatus st = planner->solve(vp::evalCountPtc(cnt));
     if (ds.exhausted)
-        return "script-exhausted";
+        return "script-exhausted samples=" + std::to_string(ds.si) + "/" + std::to_string(ds.samples.size()) + " controls=" +
+               std::to_string(ds.ci) + "/" + std::to_string(ds.controls.size()) + " counts=" + std::to_string(ds.ki) + "/" +
+               std::to_string(ds.counts.size()) + " evals=" + std::to_string(cnt->evals.load());
     return showSolution(sys, pdef, st, *si) + " | " + planner->dumpTree(sys);
 }
 
